@@ -82,6 +82,12 @@ def check(ctx, case, reqs, pend):
     ign = case["ignore"]
     fa = A.fact_arg(case)
     wa = None if w is None else wv.copy()
+    if case.get("readonly"):
+        # the caller's arrays are read-only (a memory map, a broadcast, flags.writeable = False): every statistic
+        # still has to be computed - and cannot be computed by writing into them
+        for arr in (list(fa) if isinstance(fa, tuple) else [fa]) + ([wa] if wa is not None else []):
+            arr.flags.writeable = False
+        ctx.hit("readonly_arguments")
     cols = [None] if K is None else list(range(K))
     col = lambda a, c: a if c is None else a[:, c]
     desc0 = A.small_desc(case)
@@ -314,6 +320,7 @@ def run(ctx):
                                    np.ones(case["N"], dtype=bool))
         if case["fact_form"] == "pair_int":
             case["fact_form"] = "pair"
+        case["readonly"] = it % 3 == 1
         check(ctx, case, reqs, pend)
     if ctx.oracle_only:
         return
